@@ -543,7 +543,22 @@ def _run_sgr(case):
             f = cls(**kw)
             f.add_style(st)
         return {"out": f.format("<zz>%s</zz>" % SGR_TEXT)}
-    return {"ansi": _guard(lambda: go(AnsiFormatter, {"forced": True})), "plain": _guard(lambda: go(PlainFormatter, {}))}
+    out = {"ansi": _guard(lambda: go(AnsiFormatter, {"forced": True})), "plain": _guard(lambda: go(PlainFormatter, {}))}
+    if route == "add":
+        # a style added LATER: the formatter has already rendered and stripped messages when the style arrives
+        def late(cls, kw, strip):
+            f = cls(**kw)
+            f.format("<b>warm</b> up")
+            f.remove_format("<b>warm</b> up")
+            f.add_style(_style_obj(case, "zz"))
+            msg = "<zz>%s</zz>" % SGR_TEXT
+            return {"out": f.remove_format(msg) if strip else f.format(msg)}
+        out["late"] = {"ansi": _guard(lambda: late(AnsiFormatter, {"forced": True}, False)),
+                       "ansi_removed": _guard(lambda: late(AnsiFormatter, {"forced": True}, True)),
+                       "unforced_removed": _guard(lambda: late(AnsiFormatter, {}, True)),
+                       "plain": _guard(lambda: late(PlainFormatter, {}, False)),
+                       "plain_removed": _guard(lambda: late(PlainFormatter, {}, True))}
+    return out
 
 
 def _formatter(name):
@@ -823,6 +838,14 @@ def _oracle_sgr(case, obs):
         return "plain formatter raised %s" % p["err"]
     if p["out"] != SGR_TEXT:
         return "plain formatter changed the text: %r" % p["out"]
+    late = obs.get("late")
+    if late is not None:
+        if late["ansi"] != a:
+            return "a style added after the formatter was used renders %r, added before its first use %r" % (late["ansi"], a)
+        for k in ("ansi_removed", "unforced_removed", "plain", "plain_removed"):
+            if late[k] != {"out": SGR_TEXT}:
+                return "style added after the formatter was used: undecorated rendering (%s) gives %r, required %r" % (
+                    k, late[k], SGR_TEXT)
     return None
 
 
